@@ -354,3 +354,94 @@ func reshape(doc []byte, r *plan.Rng, stretch bool, nulls bool) []byte {
 	}
 	return out
 }
+
+var badPieces = []string{"\xff", "\xfe", "\xc0", "\xe3", "\xe3\x81", "\xf0\x9f", "\x80", "\xed\xa0\x80", "\xf4\x90\x80\x80", "\xc2"}
+
+// badUTF8 puts a run of ill-formed UTF-8 (1..60 pieces, now and then with a
+// well-formed multi-byte character or an escape in between) into one string of
+// the document (a value or a key).
+func badUTF8(doc []byte, r *plan.Rng) []byte {
+	var quotes []int
+	for i := 0; i < len(doc); i++ {
+		if doc[i] == '\\' {
+			i++
+			continue
+		}
+		if doc[i] == '"' {
+			quotes = append(quotes, i)
+		}
+	}
+	var run []byte
+	for k := r.Range(1, 60); k > 0; k-- {
+		run = append(run, badPieces[r.Intn(len(badPieces))]...)
+		switch r.Intn(12) {
+		case 0:
+			run = append(run, "é"...)
+		case 1:
+			run = append(run, "😀"...)
+		case 2:
+			run = append(run, `\n`...)
+		case 3:
+			run = append(run, 'a')
+		}
+	}
+	if len(quotes) < 2 {
+		return append(append([]byte(`"`), run...), '"')
+	}
+	q := quotes[r.Intn(len(quotes)/2)*2] // an opening quote
+	out := append([]byte(nil), doc[:q+1]...)
+	out = append(out, run...)
+	return append(out, doc[q+1:]...)
+}
+
+var alignSnippets = []string{`[true,false,null]`, `{"a":true,"b":null,"c":false}`, `"abc\u00e9\n\\"`, `[1.5e+10,-0,123456789]`, `[[],{},[{}]]`, `{"k":"v\ud83d\ude00"}`, `null`, `true`, `false`, `-12.5E-3`}
+
+// alignedText: a text whose length is (about) a buffer capacity minus one: white
+// space or a padded string in front of a snippet that is cut somewhere, so that
+// the last bytes of the text are the last bytes of a pooled or freshly sized
+// buffer (capacities: powers of two, one and a half times a power of two, and
+// multiples of the buffer-size knob of the build variant).
+func alignedText(r *plan.Rng) []byte {
+	var caps []int
+	for k := 4; k <= 13; k++ {
+		caps = append(caps, 1<<uint(k), 3<<uint(k-1))
+	}
+	var kb int
+	if i := strings.Index(Variant, "-b"); i >= 0 {
+		fmt.Sscanf(Variant[i+2:], "%d", &kb)
+	}
+	for j := 0; kb > 0 && j < 8; j++ {
+		caps = append(caps, kb<<uint(j))
+	}
+	total := caps[r.Intn(len(caps))] + r.Range(-2, 1)
+	sn := alignSnippets[r.Intn(len(alignSnippets))]
+	if r.Chance(3, 4) {
+		sn = sn[:r.Range(1, len(sn))]
+	}
+	pad := total - len(sn)
+	if pad < 0 {
+		return []byte(sn)
+	}
+	var out []byte
+	switch r.Intn(3) {
+	case 0:
+		out = append(out, repeatByte(' ', pad)...)
+	case 1:
+		if pad >= 4 {
+			out = append(out, `["`...)
+			out = append(out, repeatByte('p', pad-4)...)
+			out = append(out, `",`...)
+		} else {
+			out = append(out, repeatByte(' ', pad)...)
+		}
+	default:
+		if pad >= 5 {
+			out = append(out, `{"`...)
+			out = append(out, repeatByte('k', pad-4)...)
+			out = append(out, `":`...)
+		} else {
+			out = append(out, repeatByte(' ', pad)...)
+		}
+	}
+	return append(out, sn...)
+}
